@@ -32,7 +32,7 @@ var Kinds = []string{
 	"resolve", "rotate", "sort", "rotate_node", "graft", "merge", "identical", "identical_one", "single_nodes",
 	"nni", "nni_undo", "nni_double", "rename", "rename_auto", "rename_regexp", "shuffle_tips", "clone", "subtree",
 	"reinit", "clear_lengths", "clear_supports", "comments_set", "comments_clear", "comments_add",
-	"scale_lengths", "round_supports",
+	"scale_lengths", "round_supports", "resolve_named", "graft_tip_on_edge", "reroot_first",
 }
 
 // GenOp draws one operation. Arguments are drawn generously; the interpreter reduces the
@@ -51,7 +51,7 @@ func GenOp(t *rapid.T, kinds []string) Op {
 		}
 	}
 	switch k {
-	case "reroot", "rotate_node", "subtree", "nni", "nni_undo", "nni_double", "comments_add":
+	case "reroot", "rotate_node", "subtree", "nni", "nni_undo", "nni_double", "comments_add", "graft_tip_on_edge":
 		sel(1)
 	case "outgroup":
 		sel(rapid.IntRange(1, 5).Draw(t, "nout"))
@@ -425,6 +425,51 @@ func Apply(s *State, op Op) (int, error) {
 			if e := edges[sel(0)%len(edges)]; len(e.Comments()) == 0 && e.Length() != tree.NIL_LENGTH {
 				e.AddComment("e" + strconv.Itoa(sel(0)))
 			}
+		}
+	case "resolve_named":
+		// turns named inner nodes into tips of the same name: tip names would repeat when an
+		// inner node carries the name of a tip, which later steps are not required to cope with
+		names := map[string]int{}
+		for _, n := range t.Nodes() {
+			if n.Name() != "" {
+				names[n.Name()]++
+			}
+		}
+		for _, k := range names {
+			if k > 1 {
+				return Skipped, nil
+			}
+		}
+		if hasSingleChildInner(t) {
+			return Skipped, nil
+		}
+		t.ResolveNamedInternalNodes()
+		// the inner nodes keep their names: clear them so that names stay unique
+		for _, n := range t.Nodes() {
+			if n.Nneigh() > 1 {
+				n.SetName("")
+			}
+		}
+		if err := t.UpdateTipIndex(); err != nil {
+			return Failed, err
+		}
+	case "graft_tip_on_edge":
+		edges := t.Edges()
+		if len(edges) == 0 {
+			return Skipped, nil
+		}
+		e := edges[sel(0)%len(edges)]
+		n := t.NewNode()
+		n.SetName(s.fresh("gt"))
+		if _, _, _, err := t.GraftTipOnEdge(n, e); err != nil {
+			return Failed, err
+		}
+		if err := t.UpdateTipIndex(); err != nil {
+			return Failed, err
+		}
+	case "reroot_first":
+		if err := t.RerootFirst(); err != nil {
+			return Failed, err
 		}
 	case "scale_lengths":
 		t.ScaleLengths(2, true, true)
